@@ -86,6 +86,8 @@ func (c *Ctx) Fork(n, par int) bool {
 				}
 			}
 			if r.st == nil || (r.code != 0 && r.code != 1) {
+				logf := fmt.Sprintf("%s/out/shard-fail-%s-%d.log", VerifDir, c.ID, i)
+				_ = os.WriteFile(logf, append(append([]byte{}, out...), stderr.Bytes()...), 0o644)
 				r.err = fmt.Sprintf("shard %d/%d failed (exit %d)\n%s\n%s", i, n, r.code, truncate(string(out), 2000), truncate(stderr.String(), 6000))
 			}
 			results[i] = r
